@@ -35,7 +35,7 @@ func synthPlays(r *RNG, n, cycles int) []synthPlay {
 	}
 	pSpread := []float64{0.3, 0.5, 0.7, 0.9}[r.Intn(4)]
 	pSelf := 0.04 * r.Float()
-	pStrag := []float64{0.7, 0.9, 1.0}[r.Intn(3)]
+	pStrag := []float64{0.2, 0.4, 0.7, 0.9, 1.0}[r.Intn(5)]
 	for c := 0; c < cycles; c++ {
 		var ring []synthPlay
 		if reg == 3 {
